@@ -134,15 +134,63 @@ def any_spec(draw):
     return sc
 
 
+def repo_capture_specs():
+    """every capture shipped with the repository (real TLS and QUIC stacks) with every key log of its directory, with and without -a"""
+    import os
+    import runner
+    out = []
+    root = os.path.join(runner.REPO, "tlexport", "pcaps_und_keylogs")
+    if os.path.isdir(root):
+        for sub in sorted(os.listdir(root)):
+            d = os.path.join(root, sub)
+            if not os.path.isdir(d):
+                continue
+            logs = [f for f in sorted(os.listdir(d)) if f.endswith((".log", ".txt"))]
+            for fn in sorted(os.listdir(d)):
+                if fn.endswith(".pcapng"):
+                    for lg in logs[:3]:
+                        for a in (False, True):
+                            out.append({"file": os.path.join("tlexport/pcaps_und_keylogs", sub, fn), "log": os.path.join("tlexport/pcaps_und_keylogs", sub, lg), "a": a})
+    return out
+
+
+def evaluate_repo_capture(spec):
+    import os
+    import netio
+    import runner
+    wd = engine.workdir()
+    outp = os.path.join(wd, "repo.out.pcapng")
+    if os.path.exists(outp):
+        os.unlink(outp)
+    argv = ["-i", os.path.join(runner.REPO, spec["file"]), "-s", os.path.join(runner.REPO, spec["log"]), "-o", outp, "-p", "443", "44330", "5556", "4433"]
+    if spec["a"]:
+        argv.append("-a")
+    o = oracle.Outcome()
+    o.run = runner.run_inproc(argv)
+    o.pkts = o.bad = o.flows = None
+    o.outpath, o.size = outp, None
+    if os.path.exists(outp):
+        try:
+            o.pkts = netio.read_output(outp)
+            o.flows = oracle.flows(o.pkts)
+        except oracle.BadOutput as e:
+            o.bad = str(e)
+    sig, detail = validity(o)
+    return {"sig": ("repository capture: " + sig) if sig else None, "detail": f"{spec}: {detail}", "nontrivial": bool(o.pkts),
+            "labels": ["repo-capture", "quic" if "quic" in spec["file"] else "tls"], "key": engine.spec_hash(spec)}
+
+
 def stages(tier):
     quick = tier == "quick"
     return [
+        Stage("repo-captures", evaluate_repo_capture, specs=repo_capture_specs()),
         Stage("split-grid", evaluate_grid, specs=grid_specs(tier)),
         Stage("any-capture", evaluate_any, strategy=lambda t: any_spec(), examples=1200 if quick else 30000),
     ]
 
 
-RULE = ("validity predicate only (no expected bytes): strict pcapng reader, strict Ethernet/IPv4/IPv6/TCP/UDP frame parser with length and checksum "
+RULE = ("validity predicate only (no expected bytes); stage repo-captures applies it to every real TLS / QUIC capture shipped with the repository; "
+        "predicate: strict pcapng reader, strict Ethernet/IPv4/IPv6/TCP/UDP frame parser with length and checksum "
         "verification, strict TCP reassembler (SYN, SYN/ACK, ACK, then gap-free non-overlapping sequence space with consistent ACKs); stage "
         "split-grid enumerates (record length n = 0..40, 255, 256, 1400, 16384) x (number k = 1..min(n+5,12) of input segments carrying the record) "
         "and additionally demands <= k segments whose concatenation is the record; stage any-capture draws captures of 0-4 flows (TLS, QUIC, plain "
